@@ -41,7 +41,7 @@ ORCH = 'chainables.orchestrate'
 
 
 def run(ctx: Ctx):
-  for r in (r1, r2, r3, r4, r5, r6, r7, r8, r9, r11, r12, r13):
+  for r in (r1, r2, r3, r4, r5, r6, r7, r8, r9, r11, r12, r13, r14):
     ctx.guard(r)
   from mlmverif.props import c06
   ctx.include('R-C20-10', '"liveness is a function only of the last recorded heartbeat": the'
@@ -1119,6 +1119,44 @@ def r13(ctx: Ctx):
   ctx.floor(rule, 15, n)
 
 
+def r14(ctx: Ctx):
+  rule = 'R-C20-14'
+  ctx.rule(rule, '"at most one pool owns a given worker ... for all concurrent sequences ... from several pools and threads":'
+           ' ownership lives in the Worker OBJECT, and pools find the object of an address through the singleton'
+           ' metaclass. Its lookup of the instance table and the insertion of a new instance are one critical section:'
+           ' in SingletonMeta.__call__ every read of the table (`.get(` / `in` / subscript) and the store into it lie'
+           ' inside one `with <lock>` block. Otherwise two threads that construct the worker of one address at the same'
+           ' time both miss and both insert: two objects, two locks — two pools own "the same worker"')
+  repo = ctx.repo
+  ci = repo.cls('utils.func_utils', 'SingletonMeta')
+  fi = ci.methods.get('__call__')
+  if fi is None:
+    raise AnalysisError('SingletonMeta.__call__ not found')
+  tables = set()
+  for x in ast.walk(fi.node):
+    if isinstance(x, ast.Assign):
+      for t in x.targets:
+        if isinstance(t, ast.Subscript) and isinstance(t.value, ast.Attribute) and isinstance(t.value.value, ast.Name):
+          tables.add(unparse(t.value))
+  if not tables:
+    raise AnalysisError('SingletonMeta.__call__ no longer stores the new instance in a table')
+  n = 0
+  for tb in sorted(tables):
+    n += 1
+    uses = [x for x in ast.walk(fi.node) if isinstance(x, ast.Attribute) and unparse(x) == tb]
+    withs = [w for w in ast.walk(fi.node) if isinstance(w, ast.With) and any('lock' in unparse(it.context_expr).lower() for it in w.items)]
+    inside = [w for w in withs if all(any(y is u for y in ast.walk(w)) for u in uses)]
+    what = f'SingletonMeta.__call__: lookup and insertion in `{tb}` are one critical section'
+    if inside:
+      ctx.ok(rule, fi, what, inside[0])
+    else:
+      ctx.fail(rule, fi, what,
+               f'the {len(uses)} accesses of `{tb}` in SingletonMeta.__call__ (lookup, insertion) are not inside one `with <lock>`'
+               ' block: two threads constructing equal instances concurrently both miss the lookup and both insert — for a'
+               ' Worker that means two objects with their own ownership locks for one server address', node=uses[0])
+  ctx.floor(rule, 1, n)
+
+
 def r8(ctx: Ctx):
   rule = 'R-C20-8'
   ctx.rule(rule, '"recorded heartbeats never move backwards": register() stores'
@@ -1274,6 +1312,12 @@ _U = 'utils/courier_utils.py'
 _W = 'chainables/courier_worker.py'
 _O = 'chainables/orchestrate.py'
 VARIANTS = [
+    B('revert-singleton-lookup-and-insert-unlocked', 'utils/func_utils.py',
+      "    with cls._instances_lock:\n      if (ref := cls._instances.get(obj, None)) and (\n          result := ref()\n      ) is not None:\n        return result\n      logging.info('chainable: %s', f'singleton {cls.__name__}, {obj}')\n      cls._instances[obj] = weakref.ref(obj)\n    return obj",
+      "    if (ref := cls._instances.get(obj, None)) and (result := ref()) is not None:\n      return result\n    logging.info('chainable: %s', f'singleton {cls.__name__}, {obj}')\n    cls._instances[obj] = weakref.ref(obj)\n    return obj", 'R-C20-14'),
+    B('singleton-insert-outside-the-lock', 'utils/func_utils.py',
+      "      logging.info('chainable: %s', f'singleton {cls.__name__}, {obj}')\n      cls._instances[obj] = weakref.ref(obj)\n    return obj",
+      "      logging.info('chainable: %s', f'singleton {cls.__name__}, {obj}')\n    cls._instances[obj] = weakref.ref(obj)\n    return obj", 'R-C20-14'),
     B('set-timeout-swaps-worker-objects', _W,
       '    for c in self._workers:\n      c.call_timeout = timeout', '    self._workers = [dc.replace(c.configs, call_timeout=timeout).make() for c in self._workers]', 'R-C20-13'),
     B('release-all-keeps-busy-workers', 'chainables/courier_worker.py',
